@@ -29,9 +29,10 @@ Lemma spec_add_appends s h t s' n : s_h s = Some h -> spec_step s (Add t) = (s',
 Proof.
   intros E. unfold spec_step. rewrite E. destruct (sh_mode h) eqn:Md; [discriminate| |].
   all: destruct (acceptable (s_def s h) t); [|discriminate].
-  all: unfold s_items; destruct (sh_loc h) as [items cap def|p] eqn:El.
-  1,3: destruct (cap <=? length items); [discriminate|]; intros H; injection H as <- <-; split; auto;
-       eexists; split; reflexivity.
+  all: unfold s_items; destruct (sh_loc h) as [items cap def used|p] eqn:El.
+  1,3: destruct (cap <? t_size t); [discriminate|]; destruct (cap <? used + t_size t); [discriminate|];
+       intros H; injection H as <- <-; split; auto; eexists; split; reflexivity.
+  all: destruct (match sh_cap h with Some cp => cp <? t_size t | None => false end); [discriminate|].
   all: intros H; injection H as <- <-; cbn [s_h s_fs sh_loc].
   all: unfold slookup, supd; destruct (alookup path_eqb p (s_fs s)) as [st|] eqn:L; cbn [ss_items app length];
        (split; [reflexivity|]); exists h; (split; [reflexivity|]); rewrite El;
@@ -44,7 +45,9 @@ Proof.
   unfold spec_step. destruct (s_h s) as [h|]; [|now intros H; injection H as <-].
   destruct (sh_mode h); [now intros H; injection H as <-| |].
   all: destruct (acceptable (s_def s h) t); [|now intros H; injection H as <-].
-  all: destruct (sh_loc h) as [items cap def|p]; [destruct (cap <=? length items)|]; intros H;
+  all: destruct (sh_loc h) as [items cap def used|p];
+       [destruct (cap <? t_size t); [|destruct (cap <? used + t_size t)]
+       |destruct (match sh_cap h with Some cp => cp <? t_size t | None => false end)]; intros H;
        try discriminate; now injection H as <-.
 Qed.
 
@@ -102,7 +105,9 @@ Proof.
   all: destruct (match h_indexable h with Some b => negb (Bool.eqb b (has_id t)) | None => false end);
        [now intros H; injection H as <-|].
   all: destruct (t_kind t); [|now intros H; injection H as <-].
-  all: destruct (match h_src h with SrcMem cap => cap <=? length (h_mem h) | _ => false end);
+  all: destruct (match cache_cap h with Some cp => cp <? t_size t | None => false end);
+       [now intros H; injection H as <-|].
+  all: destruct (match h_src h with SrcMem cap => cap <? h_used h + t_size t | _ => false end);
        [now intros H; injection H as <-|].
   all: destruct (insert fs h t true); discriminate.
 Qed.
@@ -120,16 +125,17 @@ Qed.
 
 (* an in-memory store that is full refuses a valid addition, and keeps what it has *)
 Theorem inmemory_refuses_when_full w h cap t : Inv w -> w_h w = Some h -> h_src h = SrcMem cap ->
-  cap <= length (h_mem h) -> acceptable (model_def (w_fs w) h) t = true ->
+  t_size t <= cap -> cap < h_used h + t_size t -> acceptable (model_def (w_fs w) h) t = true ->
   step fixed_cfg w (Add t) = (w, OErr EFull).
 Proof.
-  intros I Hh Es Hc A. destruct w as [fs oh]; cbn in *; subst oh.
+  intros I Hh Es Hfit Hc A. destruct w as [fs oh]; cbn in *; subst oh.
   pose proof (inv_handle _ I _ eq_refl) as Hi; cbn in Hi.
   assert (Mr : h_mode h <> MRead).
   { unfold hinv in Hi. rewrite Es in Hi. destruct Hi as (-> & _). discriminate. }
   destruct (add_eq fs h t Hi Mr) as [(A' & _)|(_ & Ea)]; [congruence|].
-  cbn [step w_h w_fs]. rewrite Ea. unfold is_full. rewrite Es.
-  assert (E : (cap <=? length (h_mem h)) = true) by now apply Nat.leb_le. now rewrite E.
+  cbn [step w_h w_fs]. rewrite Ea. unfold is_full, too_large, cache_cap. rewrite Es.
+  assert (E1 : (cap <? t_size t) = false) by (apply Nat.ltb_ge; lia).
+  assert (E2 : (cap <? h_used h + t_size t) = true) by (apply Nat.ltb_lt; lia). now rewrite E1, E2.
 Qed.
 
 (* ------------------------------------------------------------------------------------------- *)
@@ -169,9 +175,10 @@ Definition P0 := mkPath 0 0 XNc.
 Definition P1 := mkPath 0 1 XNc.
 Definition Q0 := mkPath 1 0 XNc.
 Definition OUT := mkPath 0 9 XStore.
-Definition TJ (k : Z) (i : option Z) := mkTraj k i 0 TOk.
-Definition TBad (k : Z) (i : option Z) := mkTraj k i 0 TMissingReq.
-Definition TSig (k : Z) (i : option Z) := mkTraj k i 1 TOk.
+Definition TJ (k : Z) (i : option Z) := mkTraj k i 0 TOk 1.
+Definition TBad (k : Z) (i : option Z) := mkTraj k i 0 TMissingReq 1.
+Definition TSig (k : Z) (i : option Z) := mkTraj k i 1 TOk 1.
+Definition TBig (k : Z) (sz : nat) := mkTraj k None 0 TOk sz.
 
 Definition only (f5 f6 f7 f8 c08a c09a c10a : bool) := mkCfg f5 f6 f7 f8 c08a c09a c10a.
 Definition cfg_F5 := only false true true true true true true.
@@ -183,8 +190,8 @@ Definition cfg_C09a := only true true true true true false true.
 Definition cfg_C10a := only true true true true true true false.
 
 Definition hist_F5 : list op :=
-  [Create P0; Add (TJ 0 None); Add (TJ 1 None); Add (TJ 2 None); Add (TJ 3 None); Close;
-   OpenA P0; Add (TJ 4 None); Add (TJ 5 None); Evict []; Get 0; Get 4].
+  [Create P0 None; Add (TJ 0 None); Add (TJ 1 None); Add (TJ 2 None); Add (TJ 3 None); Close;
+   OpenA P0 None; Add (TJ 4 None); Add (TJ 5 None); Evict []; Get 0; Get 4].
 
 Lemma append_session_read_refuted :
   snd (run cfg_F5 empty_world hist_F5) <> snd (spec_run (abs empty_world) hist_F5) /\
@@ -194,7 +201,7 @@ Lemma append_session_read_refuted :
 Proof. vm_compute. repeat split; congruence. Qed.
 
 Definition hist_F6 : list op :=
-  [Create P0; Add (TJ 0 None); Add (TBad 1 None); Len; Add (TJ 2 None); Evict []; Get 1; Close; OpenR P0; Len].
+  [Create P0 None; Add (TJ 0 None); Add (TBad 1 None); Len; Add (TJ 2 None); Evict []; Get 1; Close; OpenR P0 None; Len].
 
 Lemma rejected_add_refuted :
   map coarse (snd (run cfg_F6 empty_world hist_F6)) <> snd (spec_run (abs empty_world) hist_F6) /\
@@ -226,7 +233,7 @@ Lemma inmemory_lookup_refuted :
 Proof. vm_compute. repeat split. Qed.
 
 Definition hist_C08a : list op :=
-  [Create P0; Add (TJ 0 None); Add (TJ 1 None); Close; OpenA P0; Add (TJ 2 (Some 9%Z)); Close].
+  [Create P0 None; Add (TJ 0 None); Add (TJ 1 None); Close; OpenA P0 None; Add (TJ 2 (Some 9%Z)); Close].
 
 Lemma append_mixed_ids_refuted :
   nth 5 (snd (run cfg_C08a empty_world hist_C08a)) OUnit = OIdx 2 /\
@@ -242,13 +249,13 @@ Definition fs_dup : fsys :=
 
 Lemma merge_same_name_loses_data_refuted :
   snd (merge_run cfg_C09a fs_dup OUT [P0; Q0] None) = OUnit /\
-  snd (run cfg_C09a (mkW (fst (merge_run cfg_C09a fs_dup OUT [P0; Q0] None)) None) [OpenR OUT; Len; Iter []])
+  snd (run cfg_C09a (mkW (fst (merge_run cfg_C09a fs_dup OUT [P0; Q0] None)) None) [OpenR OUT None; Len; Iter []])
   = [OUnit; OLen 6; OItems [2; 3; 4; 2; 3; 4]%Z None] /\
   merge_run fixed_cfg fs_dup OUT [P0; Q0] None = (fs_dup, OErr EDupNames).
 Proof. vm_compute. repeat split. Qed.
 
 Definition hist_C10a : list op :=
-  [Create P0; Add (TJ 0 None); Close; OpenA P0; Add (TSig 1 None); Len].
+  [Create P0 None; Add (TJ 0 None); Close; OpenA P0 None; Add (TSig 1 None); Len].
 
 Lemma append_schema_check_skipped_refuted :
   nth 4 (snd (run cfg_C10a empty_world hist_C10a)) OUnit = OIdx 1 /\
@@ -260,9 +267,9 @@ Proof. vm_compute. repeat split. Qed.
 (* non-vacuity                                                                                 *)
 (* ------------------------------------------------------------------------------------------- *)
 Definition hist_demo : list op :=
-  [Create P0; Add (TJ 0 (Some 30%Z)); Add (TJ 1 (Some 10%Z)); GetFlight 10; Add (TBad 9 (Some 1%Z)); Add (TJ 2 (Some 20%Z));
-   Evict []; Get 0; Iter [[]; [0]]; Close; OpenA P0; Add (TJ 3 (Some 5%Z)); Evict []; Get 1; GetFlight 30;
-   Add (TJ 4 None); Len; Close; OpenR P0; Get 4; GetFlight 5; GetFlight 6; Iter []; Close;
+  [Create P0 None; Add (TJ 0 (Some 30%Z)); Add (TJ 1 (Some 10%Z)); GetFlight 10; Add (TBad 9 (Some 1%Z)); Add (TJ 2 (Some 20%Z));
+   Evict []; Get 0; Iter [[]; [0]]; Close; OpenA P0 None; Add (TJ 3 (Some 5%Z)); Evict []; Get 1; GetFlight 30;
+   Add (TJ 4 None); Len; Close; OpenR P0 None; Get 4; GetFlight 5; GetFlight 6; Iter []; Close;
    CreateMem 2; Add (TJ 7 (Some 1%Z)); Add (TJ 8 (Some 2%Z)); Add (TJ 9 (Some 3%Z)); GetFlight 2; Len; Close].
 
 Fixpoint nodupb (l : list Z) : bool :=
@@ -318,7 +325,7 @@ Definition fs_three : fsys :=
 Lemma merge_demo :
   snd (merge_run fixed_cfg fs_three OUT [P0; P1] None) = OUnit /\
   snd (run fixed_cfg (mkW (fst (merge_run fixed_cfg fs_three OUT [P0; P1] None)) None)
-           [OpenR OUT; Len; Get 0; Get 1; Get 2; Get 3; GetFlight 50; GetFlight 30; GetFlight 7; Iter []])
+           [OpenR OUT None; Len; Get 0; Get 1; Get 2; Get 3; GetFlight 50; GetFlight 30; GetFlight 7; Iter []])
   = [OUnit; OLen 3; OItem 0; OItem 1; OItem 2; OErr EIndex; OItem 2; OItem 0; ONone; OItems [0; 1; 2]%Z None].
 Proof. vm_compute. repeat split. Qed.
 
@@ -327,3 +334,21 @@ Lemma crash_demo :
   = [OErr ECrash; OErr ECrash; OErr ECrash; OErr ECrash; OErr ECrash; OErr ECrash; OErr ECrash; OErr ECrash;
      OErr ECrash; OErr ECrash; OUnit; OUnit].
 Proof. vm_compute. reflexivity. Qed.
+
+(* ------------------------------------------------------------------------------------------- *)
+(* refusals of the cache insertion (a value larger than the whole cache; an in-memory store that   *)
+(* would have to evict) with trajectories of different sizes                                    *)
+(* ------------------------------------------------------------------------------------------- *)
+Definition hist_sizes : list op :=
+  [CreateMem 10; Add (TBig 0 4); Add (TBig 1 4); Add (TBig 2 4); Add (TBig 3 11); Add (TBig 4 2); Len; Get 2; Get 3; Close;
+   Create P0 (Some 5); Add (TBig 5 2); Add (TBig 6 9); Add (TBig 7 3); Len; Evict [1]; Get 0; Get 2; Close;
+   OpenR P0 None; Len; Iter []; Close].
+
+Lemma hist_sizes_outputs :
+  hist_ok (abs empty_world) hist_sizes /\
+  snd (run fixed_cfg empty_world hist_sizes) =
+  [OUnit; OIdx 0; OIdx 1; OErr EFull; OErr ETooLarge; OIdx 2; OLen 3; OItem 4; OErr EIndex; OUnit;
+   OUnit; OIdx 0; OErr ETooLarge; OIdx 1; OLen 2; OUnit; OItem 5; OErr EIndex; OUnit;
+   OUnit; OLen 2; OItems [5; 7]%Z None; OUnit] /\
+  snd (spec_run (abs empty_world) hist_sizes) = snd (run fixed_cfg empty_world hist_sizes).
+Proof. split; [apply hist_okb_sound; vm_compute; reflexivity|]. vm_compute. split; reflexivity. Qed.
